@@ -146,18 +146,18 @@ def plan(ctx, sub, gen, nshort):
     allc = [(e, r) for e in range(NEMB) for r in range(NRECT)]
     for k in range(16 if q else 48):
         e, r = allc[(k * 7 + s) % len(allc)]
-        add(fam="samp", nv=4, n=500 if q else 2500, emb=e, rect=r, batch=3, seed=s * 1000 + k)
+        add(fam="samp", nv=4, n=500 if q else 1500, emb=e, rect=r, batch=3, seed=s * 1000 + k)
     # (4) 5-7-vertex random paths and 5-9-vertex ring walks (enclosing / winding round the rectangle several times)
     for k in range(8 if q else 32):
         e, r = allc[(k * 5 + 3 * s) % len(allc)]
-        add(fam="rand", n=250 if q else 1200, nvlo=5, nvhi=7, emb=e, rect=r, batch=3, seed=s * 1000 + 100 + k)
+        add(fam="rand", n=250 if q else 1000, nvlo=5, nvhi=7, emb=e, rect=r, batch=3, seed=s * 1000 + 100 + k)
     for k in range(8 if q else 32):
         e, r = allc[(k * 11 + 1 + s) % len(allc)]
-        add(fam="orbit", n=250 if q else 1200, nvlo=5, nvhi=9, emb=e, rect=r if r != 3 else 0, batch=3, seed=s * 1000 + 200 + k)
+        add(fam="orbit", n=250 if q else 1000, nvlo=5, nvhi=9, emb=e, rect=r if r != 3 else 0, batch=3, seed=s * 1000 + 200 + k)
     # (5) arbitrary integer vertices (off the lattice; clustered near the sides now and then): every crossing point is rounded
     for k in range(8 if q else 32):
         e, r = allc[(k * 13 + 2 + s) % len(allc)]
-        add(fam="free", n=300 if q else 1500, nvlo=3 if sub == "rc" else 2, nvhi=7, emb=e, rect=r, batch=3, seed=s * 1000 + 300 + k)
+        add(fam="free", n=300 if q else 1200, nvlo=3 if sub == "rc" else 2, nvhi=7, emb=e, rect=r, batch=3, seed=s * 1000 + 300 + k)
     return J
 
 def fsm(ctx):
